@@ -43,7 +43,11 @@ fn c03_layout_independence() {
     { cases += 1; let mut d = DataDir::new();
       let foreign = make_chain(3, &mut |_| vec![TxSpec::new(vec![TxIn::new([7; 32], 0, vec![1, 2, 3])], vec![TxOut::new(1, vec![0x51])])]);
       for h in 0..6u64 { d.put_block((h % 2) as u64, 0xd9b4bef9, &foreign[(h % 3) as usize].ser(), &[]); d.add((h % 2) as u64, h, &chain[h as usize], ST_ACTIVE); }
-      d.extra_kv.push((b"f\x00\x00\x00\x00".to_vec(), vec![1, 2, 3])); d.extra_kv.push((b"l".to_vec(), vec![0, 0, 0, 1]));
+      // Core's file-info records ('f' + LE32 file number -> nBlocks, nSize, nUndoSize, nHeightFirst, nHeightLast, nTimeFirst, nTimeLast
+      // as VarInts) -- well-formed, but with heights that say nothing about the blocks the index places in the files
+      for f in 0..2u32 { let mut k = b"f".to_vec(); k.extend_from_slice(&f.to_le_bytes());
+          let mut v = Vec::new(); for x in [2u64, 1000, 0, 0, 1, 1_300_000_000, 1_300_000_600] { v.extend(core_varint(x)); } d.extra_kv.push((k, v)); }
+      d.extra_kv.push((b"f\x07\x00\x00\x00".to_vec(), vec![1, 2, 3])); d.extra_kv.push((b"l".to_vec(), vec![0, 0, 0, 1]));
       d.extra_kv.push((b"F\x04txindex".to_vec(), vec![1])); d.extra_kv.push((b"R".to_vec(), vec![0]));
       d.extra_kv.push((b"a".to_vec(), vec![9; 40])); d.extra_kv.push((b"c".to_vec(), vec![9; 40]));
       d.write();
@@ -244,6 +248,23 @@ fn c09_verify_rejects_inconsistent_blocks() {
             }
         }
     }
+    // a block swapped for the child of a STALE sibling: the index keeps the active block at height 2 (the stale one sorts earlier),
+    // the position recorded for height 3 holds a well-formed block whose prev-hash names the stale sibling
+    { cases += 1;
+      let mut stale = BlockSpec::new(chain[1].hash(), 4242, vec![TxSpec::new(vec![TxIn::coinbase(4242)], vec![TxOut::new(1, vec![0x51])])]);
+      loop { if stale.hash() < chain[2].hash() { break; } stale.nonce += 1; }
+      let child = BlockSpec::new(stale.hash(), 4343, vec![TxSpec::new(vec![TxIn::coinbase(4343)], vec![TxOut::new(2, vec![0x51])])]);
+      let mut d = DataDir::new();
+      for (i, b) in chain.iter().enumerate() {
+          if i == 3 { let off = d.put_block(0, 0xd9b4bef9, &child.ser(), &[]);
+              d.recs.push(IndexRec { hash: b.hash(), version: 1, height: 3, status: ST_ACTIVE, ntx: 1, file: 0, offset: off, header: None }); }
+          else { d.add(0, i as u64, b, ST_ACTIVE); } }
+      let off = d.put_block(0, 0xd9b4bef9, &stale.ser(), &[]);
+      d.recs.push(IndexRec { hash: stale.hash(), version: 1, height: 2, status: 3 | 8, ntx: 1, file: 0, offset: off, header: None });
+      d.write();
+      let r = fetch(d.path(), "bitcoin", 1, None, true, &[1, 2, 3]);
+      let rejected = match &r { Ok(v) => v[2].is_err(), Err(_) => true };
+      check(rejected, suite, "C09:verify_rejects_foreign_block", "height 3 replaced by a child of a stale sibling of height 2 (the sibling is indexed, sorts before the active block)", &format!("{:?}", r.as_ref().map(|v| v.iter().map(|x| x.is_ok()).collect::<Vec<_>>())), "Err at height 3"); }
     // a length field of the LAST block of the last file blown up: the parse runs past the end of the file -- the run
     // must fail at that height (an error, not "no such block")
     for (what, patch_at) in [("input count of the coinbase", 85usize), ("script length of the coinbase input", 122)] {
@@ -412,7 +433,7 @@ fn c12_mixed_version_chain() {
     for (coin, thr) in [("namecoin", 0x10101u32), ("dogecoin", 0x620102u32)] {
         let versions = [1u32, thr, thr - 0x100, thr, 2, thr + 1, 1];
         let mut chain = make_chain(versions.len() as u64, &mut |h| if h % 2 == 0 { vec![] } else {
-            vec![TxSpec::new(vec![TxIn::new([h as u8; 32], 0, vec![0x51])], vec![TxOut::new(h, p2pkh_script(&[h as u8; 20]))])] });
+            vec![TxSpec::new(vec![TxIn::new([h as u8; 32], 0, vec![0x51])], vec![TxOut::new(h, p2pkh_script(&[h as u8; 20])), TxOut::new(h, p2pkh_script(&[3; 20]))])] });   // (the second script is the one the parent coinbases of the AuxPoW sections pay)
         for (b, v) in chain.iter_mut().zip(versions.iter()) {
             b.version = *v;
             if *v >= thr { b.aux = Some(aux_section(&mut rng, *v % 2 == 0, (*v % 5) as usize, 2)); }
@@ -428,6 +449,11 @@ fn c12_mixed_version_chain() {
                 cases += 1;
                 let g: Vec<[u8; 32]> = got.txs.iter().map(|t| t.hash.to_byte_array()).collect();
                 let w: Vec<[u8; 32]> = want.txs.iter().map(|t| t.txid()).collect();
+                // addresses of the chain's own outputs carry the chain's own version byte, whatever a parent coinbase paid before
+                let ver = if coin == "namecoin" { 0x34u8 } else { 0x1e };
+                for (t, tw) in got.txs.iter().zip(want.txs.iter()) { for (o, ow) in t.value.outputs.iter().zip(tw.outputs.iter()) {
+                    if ow.script.len() == 25 && ow.script[0] == 0x76 { let wa = b58check(ver, &ow.script[3..23]);
+                        check(o.script.address.as_deref() == Some(wa.as_str()), suite, "C12:derived_outputs_unaffected_by_the_section", &format!("{} height {} P2PKH output", inp, h), &format!("{:?}", o.script.address), &wa); } } }
                 check(g == w && got.aux_pow_extension.is_some() == (versions[h] >= thr), suite, "C12:transaction_list_unaffected_by_the_section",
                       &format!("{} height {} version {:#x}", inp, h, versions[h]), &format!("{} txs, aux={}", g.len(), got.aux_pow_extension.is_some()), &format!("{} txs, aux={}", w.len(), versions[h] >= thr));
             }
